@@ -246,7 +246,10 @@ def _dataset_class():
             self.idx = idx
 
         async def execute_result_async(self, a: ast.AST, title: Optional[str] = None):
-            return await _W.executor_called(("d", self.idx), a, title)
+            # the executor of the dataset OBJECT at the root of the stream: a (shallow) copy of it is another object,
+            # with its own state from then on
+            own = any(self is d for d in _W.datasets)
+            return await _W.executor_called(("d", self.idx) if own else ("copy-of-d", self.idx), a, title)
 
     return RecDataset
 
